@@ -39,6 +39,7 @@ type Run struct {
 	eng     *engines
 	kept    []*keptValue
 	keptStr [][2]string
+	fz      map[int]*fuzzConn
 }
 
 type client struct {
@@ -385,6 +386,10 @@ func (r *Run) doOp(sc *plan.Script, idx int, op *plan.Op, rec *plan.Rec) {
 	}
 	if strings.HasPrefix(op.K, "eng.") {
 		r.doEngine(op, rec)
+		return
+	}
+	if strings.HasPrefix(op.K, "fz.") {
+		r.doFuzz(sc, op, rec)
 		return
 	}
 	if op.K == "putv" || op.K == "getv" || strings.HasPrefix(op.K, "snap.") {
